@@ -439,6 +439,10 @@ func c03CommitCancel(tier string, seed int64, idx int, scratch string) rt.CaseRe
 		} else {
 			cctx, cancel := context.WithCancel(ctxBg)
 			d := time.Duration(rng.Intn(3000)) * time.Microsecond
+			if it%4 == 1 {
+				d = 0
+				cancel() // done before Commit is called: over gRPC the request never leaves the client
+			}
 			t := time.AfterFunc(d, cancel)
 			defer t.Stop()
 			defer cancel()
@@ -471,7 +475,11 @@ func c03CommitCancel(tier string, seed int64, idx int, scratch string) rt.CaseRe
 		if !verify("30 ms after the Commit", plan, keys) {
 			return c
 		}
-		tx.Rollback(ctxBg)
+		rberr := tx.Rollback(ctxBg)
+		if again := tx.Commit(ctxBg); rberr == nil && again == nil && !took {
+			c.Violate("commit-after-rollback-succeeded after-cancelled-commit", fmt.Sprintf("Commit (%s) returned %v, Rollback of the same handle returned nil, a further Commit returned nil as well", how, cerr), plan)
+			return c
+		}
 		// whatever the Commit said, the transaction is over now: a ReadUncommitted reader sees the
 		// committed state and nothing else
 		if ru, rerr := env.DB.Begin(ctxBg, fs_db.IsoLevelReadUncommitted); rerr == nil {
